@@ -352,7 +352,7 @@ Proof.
   change (assocZ 189 zgy_headers_dict) with (Some 2). change (assocZ 193 zgy_headers_dict) with (Some 3).
   change (nth (Z.to_nat 2) zgy_returns (ZLines true true)) with (ZLines true true).
   change (nth (Z.to_nat 3) zgy_returns (ZLines true true)) with (ZLines false false).
-  cbn [zsym_elem ax_first ax_last ax_n]. split; apply LIN; lia.
+  cbn [zsym_elem ax_first ax_last ax_n]. split; apply LIN; cbn [ax_n]; lia.
 Qed.
 Theorem zgy_cdp_arrays i x : 0 <= i < n_il -> 0 <= x < n_xl ->
   zgy_array lin rnd il xl 181 (i * n_xl + x) = rnd (match nth 0 zgy_returns (ZLines true true) with ZRound e => e | _ => RInt 0 end) i x /\
@@ -399,4 +399,31 @@ Lemma segy_fields_ok : wf_fields segy_fields = true /\ (forall k, In k zgy_keys 
 Proof.
   split; [vm_compute; reflexivity|]. intros k Hk. vm_compute in Hk.
   repeat (destruct Hk as [<-|Hk]; [vm_compute; tauto|]). destruct Hk.
+Qed.
+
+(* ================================================================ 8. composition: what a reader gets back from a ZGY-sourced file *)
+Theorem zgy_lines_readback lin rnd fields tv a_il d_il n_il a_xl d_xl n_xl ndb la t :
+  lin_exact lin -> wf_fields fields = true -> (forall k, In k zgy_keys -> In k fields) ->
+  2 <= n_il -> 2 <= n_xl -> 0 <= t < n_il * n_xl ->
+  let arr := zgy_array lin rnd (arith_lax a_il d_il n_il) (arith_lax a_xl d_xl n_xl) in
+  let F := zgy_write fields tv arr n_il n_xl ndb in
+  read_field fields F la t 189 = Return (a_il + d_il * (t / n_xl)) /\
+  read_field fields F la t 193 = Return (a_xl + d_xl * (t mod n_xl)) /\
+  read_field fields F la t 115 = Return (tv TVNSamples) /\
+  read_field fields F la t 117 = Return (tv (TVTrunc (RMul (RInt 1000) RZinc))) /\
+  read_field fields F la t 71 = Return (tv (TVConst (-100))).
+Proof.
+  intros LIN Hwf Hin Hnil Hnxl Ht. cbv zeta.
+  assert (K : forall k, In k [115; 117; 71; 181; 185; 189; 193] -> In k fields).
+  { intros k Hk. apply Hin. unfold zgy_keys. cbn [In] in Hk. vm_compute. tauto. }
+  pose proof (Z.div_mod t n_xl ltac:(lia)) as DM. pose proof (Z.mod_pos_bound t n_xl ltac:(lia)) as MB.
+  assert (Hi : 0 <= t / n_xl < n_il).
+  { split; [apply Z.div_pos; lia | apply Z.div_lt_upper_bound; lia]. }
+  rewrite !zgy_readback by (try assumption; try lia; apply K; cbn [In]; tauto).
+  destruct (zgy_expected_cases tv (zgy_array lin rnd (arith_lax a_il d_il n_il) (arith_lax a_xl d_xl n_xl)) t)
+    as (E115 & E117 & E71 & _ & _ & E189 & E193 & _).
+  rewrite E115, E117, E71, E189, E193.
+  destruct (zgy_line_arrays lin rnd LIN a_il d_il n_il a_xl d_xl n_xl Hnil Hnxl (t / n_xl) (t mod n_xl) Hi MB) as [L1 L2].
+  replace ((t / n_xl) * n_xl + t mod n_xl) with t in L1, L2 by lia. rewrite L1, L2.
+  repeat split; reflexivity.
 Qed.
